@@ -505,3 +505,82 @@ func EntryOnce(k string) int {
 	e.once.Do(func() { e.r = len(k) * 2 }) // computed outside the table lock
 	return e.r
 }
+
+// ---- third review round ----
+
+type sink interface{ put(int) }
+type sumSink struct {
+	mu sync.Mutex
+	n  int
+}
+
+func (s *sumSink) put(v int) { s.mu.Lock(); s.n += v; s.mu.Unlock() }
+
+func feed(wg *sync.WaitGroup, s sink, scalef float64, vs ...int) {
+	defer wg.Done()
+	for _, v := range vs {
+		s.put(int(float64(v) * scalef))
+	}
+}
+
+// GoIfaceVariadic: go statements passing a concrete value for an interface parameter, an
+// untyped constant for a float parameter, a variadic tail and a variadic spread.
+func GoIfaceVariadic() int {
+	s := &sumSink{}
+	var wg sync.WaitGroup
+	wg.Add(3)
+	go feed(&wg, s, 2, 1, 2, 3)
+	xs := []int{4, 5}
+	go feed(&wg, s, 1, xs...)
+	go feed(&wg, s, 1)
+	wg.Wait()
+	return s.n
+}
+
+type cell struct {
+	mu sync.Mutex
+	m  map[string]int
+}
+
+var grid [2][3]cell
+
+var nestedShards struct {
+	name   string
+	shards [4]cell
+}
+
+// GridGet: memo spread over a two-dimensional array of cells and over an array wrapped in a
+// struct, each cell under its own mutex.
+func GridGet(k string) int {
+	c := &grid[len(k)%2][len(k)%3]
+	c.mu.Lock()
+	if c.m == nil {
+		c.m = map[string]int{}
+	}
+	c.m[k] = len(k)
+	v := c.m[k]
+	c.mu.Unlock()
+	n := &nestedShards.shards[len(k)%4]
+	n.mu.Lock()
+	if n.m == nil {
+		n.m = map[string]int{}
+	}
+	n.m[k] = v
+	v = n.m[k]
+	n.mu.Unlock()
+	return v
+}
+
+type onceEntry struct {
+	once sync.Once
+	v    int
+}
+
+var onceTable = map[int]*onceEntry{1: {}, 2: {}, 3: {}}
+
+// OnceTableGet: entries of a table built at init, each filled lazily under its own Once.
+func OnceTableGet(k int) int {
+	e := onceTable[k]
+	e.once.Do(func() { e.v = k * 10 })
+	return e.v
+}
